@@ -206,7 +206,7 @@ def report(pid, mod, a, seed, recs, wall):
     for old in os.listdir(os.path.join(HERE, "replay")):
         if old.startswith(pid + "_"):
             os.unlink(os.path.join(HERE, "replay", old))
-    for i, v in enumerate(viol[:12]):
+    for i, v in enumerate(viol[:int(os.environ.get("VERIF_MAXVIOL", "12"))]):
         fn = os.path.join(HERE, "replay", f"{pid}_{i}.json")
         json.dump(dict(property=pid, shape=v["shape"], inputs=v["inputs"], label=v["label"], detail=v["detail"],
                        path_condition=v.get("path_condition"), seed=seed, tier=a.tier), open(fn, "w"), indent=1, default=str)
